@@ -2,6 +2,7 @@
 import datetime
 import random
 
+import datetime as _dt
 import athlib
 from vlib.harness import V, derive_seed, run_shards
 from vlib.lib import call
@@ -96,6 +97,15 @@ def examine_pair(birth, match, category, vets, underage, text_too=True):
         rt = call(athlib.calc_uka_age_group, iso(birth), match, category, vets, underage)
         if rt != r:
             out.append(V('date-equals-iso-text', ['iso-text', category], case, rt[:3], got))
+        # a datetime at midnight IS that date (a time of day is more than the property speaks about: with 23:59:59 the
+        # library counts the birthday itself as not yet complete), and keyword arguments are the same call
+        for name, b2 in (('datetime-midnight', _dt.datetime(birth.year, birth.month, birth.day)),):
+            r2 = call(athlib.calc_uka_age_group, b2, match, category, vets, underage)
+            if r2 != r:
+                out.append(V('date-equals-iso-text', ['date-object', name, category], case, r2[:3], got))
+        r3 = call(athlib.calc_uka_age_group, birth, match, category, vets=vets, underage=underage)
+        if r3 != r:
+            out.append(V('date-equals-iso-text', ['keyword-options', category], case, r3[:3], got))
     return out, got
 
 
